@@ -195,6 +195,11 @@ func (e *Engine) runInner(st *State) (again bool) {
 			continue
 		}
 		instr := fr.Block.Instrs[fr.IP]
+		if th.ParkNext && st.Multi && th.NoPreempt == 0 && !th.Granted {
+			th.ParkNext = false
+			th.Parked = true
+			return false
+		}
 		if st.Multi && th.NoPreempt == 0 && !th.Granted && e.isVisible(st, th, fr, instr) {
 			th.Parked = true
 			return false
